@@ -71,15 +71,31 @@ def _version_of(vc, name):
     return vc.opt(name, vc.str)
 
 
-@harness('Q1', targets='kopf._core.reactor.queueing.worker', props=['C01', 'C07', 'C03'],
+@harness('Q1', targets='kopf._core.reactor.queueing.worker', props=['C01', 'C07', 'C03', 'C14', 'C02'],
          clauses=['idle_exit_leaves_no_event', 'got_item_processed_next', 'order_invariant', 'frame_streams',
-                  'consistency_bookkeeping', 'no_retire_before_consistency_deadline', 'processor_gets_current_expectation',
-                  'pressure_tells_pending_events', 'hopeless_wait_not_repeated'],
+                  'consistency_bookkeeping', 'no_retire_before_consistency_deadline', 'processor_gets_current_expectation'],
          canaries=['canary.never_idle_exit', 'canary.queue_empty_when_timeout_fires'],
          native_replays={'idle_exit_leaves_no_event': 'drivers/q1_idle_race.py', 'order_invariant': 'drivers/q1_idle_race.py',
                          'got_item_processed_next': 'drivers/q1_idle_race.py'},
          trusted=['asyncio.Queue FIFO / cancelled get() removes nothing', 'asyncio.wait_for contract', 'asyncio.Condition'])
 def Q1(vc):
+    return _q1(vc, 'order')
+
+
+@harness('Q1p', targets='kopf._core.reactor.queueing.worker', props=['C01', 'C03', 'C07', 'C13', 'C10'],
+         clauses=['pressure_tells_pending_events', 'hopeless_wait_not_repeated', 'frame_streams', 'got_item_processed_next'],
+         canaries=['canary.never_idle_exit', 'canary.queue_empty_when_timeout_fires'],
+         trusted=['as Q1; asyncio.wait_for(<fresh coroutine>, timeout <= 0) cancels the getter before its first step'])
+def Q1p(vc):
+    """queueing.worker as in Q1 (same loop contract, same rely), for the PRESSURE bookkeeping and progress under a hopeless wait: the
+    invariant here is `events pending => pressure set` instead of the order equation of Q1 (the two together cost the solver 50x):
+      pressure_tells_pending_events   the pressure the processor sees says exactly whether more events are pending (C03/C07/C13/C10: sleeps of
+                                      the processor are interrupted by a new event, and never skipped with nothing pending);
+      hopeless_wait_not_repeated      a wait that cannot succeed (time-out <= 0) over a filled backlog is not simply repeated (F-C01-1)."""
+    return _q1(vc, 'pressure')
+
+
+def _q1(vc, mode):
     """
     queueing.worker, one arbitrary iteration of its loop from an arbitrary state satisfying the invariant
       delivered == processed ++ backlog-content   (ids of events, in order)   and   key in streams
@@ -113,7 +129,7 @@ def Q1(vc):
         G.content = SSeq(eng.draw('content0', IntSeq), 'int')
     else:
         G.delivered, G.processed, G.content = (list(eng.draw(n, IntSeq)) for n in ('delivered0', 'processed0', 'content0'))
-    if sym:
+    if sym and mode == 'order':
         vc.assume(SBool(G.delivered.term == z3.Concat(G.processed.term, G.content.term)),
                   'precondition (watcher contract Q6): at spawn everything delivered is processed or still queued')
     G.susp_since_empty_check = True
@@ -124,6 +140,8 @@ def Q1(vc):
     G.processor_running = False
 
     def order_ok():
+        if mode != 'order':
+            return True
         if sym:
             return SBool(G.delivered.term == z3.Concat(G.processed.term, G.content.term))
         return G.delivered == G.processed + G.content
@@ -166,6 +184,7 @@ def Q1(vc):
                 G.gets_after_del += 1
             if vc_len(G.content) == 0:
                 raise asyncio.QueueEmpty()
+            vc.assume(vc_len(G.content) >= 1, 'implied by the test above (stated for the sequence solver)')
             G.took_after_timeout = True
             G.exit_kind = None
             return take_head()
@@ -187,8 +206,9 @@ def Q1(vc):
 
     backlog = Queue()
     pressure = StubEvent('pressure')
-    vc.assume(Implies(vc_len(G.content) > 0, pressure.is_set()),
-              'precondition (watcher contract Q5.pressure_follows_put): whatever is queued at spawn was followed by pressure.set()')
+    if mode == 'pressure':
+        vc.assume(Implies(vc_len(G.content) > 0, pressure.is_set()),
+                  'precondition (watcher contract Q5.pressure_follows_put): whatever is queued at spawn was followed by pressure.set()')
     streams = Streams(vc, {key: queueing.Stream(backlog=backlog, pressure=pressure)})
     streams.log.clear()
 
@@ -228,7 +248,8 @@ def Q1(vc):
         # the pressure the processor sees says exactly whether more events are pending: set -> its sleeps are
         # skipped in favour of the newer event (never with nothing pending: the handling would be skipped for good,
         # C03); clear -> it may sleep, and only a NEW event interrupts that
-        vc.ensure('pressure_tells_pending_events', Iff(pressure.is_set(), vc_len(G.content) > 0))
+        if mode == 'pressure':
+            vc.ensure('pressure_tells_pending_events', Iff(pressure.is_set(), vc_len(G.content) > 0))
         # Q4: the processor sees the current expectation
         ver = raw_event['object']['metadata']['resourceVersion']
         matches = And(current.ev is not None, Eq(ver, current.ev) if ver is not None and current.ev is not None else False)
@@ -279,8 +300,8 @@ def Q1(vc):
         ev, ct = loc.get('expected_version'), loc.get('consistency_time')
         inv = And(order_ok(), key in streams and streams[key].backlog is backlog, (ev is None) == (ct is None),
                   G.inflight is None, not G.deleted, loc.get('shouldstop') is False,
-                  Implies(vc_len(G.content) > 0, pressure.is_set()))      # pending events keep the pressure up
-        if not state.first and getattr(G, 'timed_out', None) is not None:
+                  Implies(vc_len(G.content) > 0, pressure.is_set()) if mode == 'pressure' else True)   # pending events keep the pressure up
+        if mode == 'pressure' and not state.first and getattr(G, 'timed_out', None) is not None:
             # a wait that could not succeed (time-out <= 0: settings.queueing.idle_timeout = 0 with no consistency deadline
             # ahead) on a filled backlog must not simply be repeated -- the next one cannot succeed either, and the object's
             # events would never be processed (C01 "none is dropped", C03): the pending event is taken some other way
@@ -343,9 +364,13 @@ def Q1(vc):
     return (outcome, G.exit_kind)
 
 
+REGISTRY['Q1'].doc = (_q1.__doc__ or '').strip()
+
+
 # ================================================================================================ watcher
 @harness('Q5', targets=['kopf._core.reactor.queueing.watcher', 'kopf._core.reactor.queueing.get_uid'],
-         props=['C01', 'C20', 'C03'],
+         props=['C01', 'C20', 'C03', 'C13', 'C07', 'C10', 'C19'],
+         prop_clauses={'C13': ['pressure_follows_put'], 'C07': ['pressure_follows_put'], 'C10': ['pressure_follows_put'], 'C19': ['one_put_per_event', 'put_into_live_stream', 'no_put_for_bookmarks', 'keyed_by_uid']},
          clauses=['one_put_per_event', 'no_put_for_bookmarks', 'put_into_live_stream', 'create_path_insert_put_spawn',
                   'spawn_only_when_absent', 'keyed_by_uid', 'worker_failure_escalates', 'drains_and_closes_on_exit',
                   'pressure_follows_put'],
@@ -382,6 +407,14 @@ def Q5(vc):
     class Queue:
         def __init__(self, owner=None):
             self.owner = owner
+
+        def empty(self):                    # whether the worker has taken everything so far: unknown to the watcher
+            return bool(vc.bool('backlog.empty()'))
+
+        def qsize(self):
+            n = vc.int('backlog.qsize()')
+            vc.assume(n >= 0, 'a size')
+            return n
 
         async def put(self, item):          # unbounded queue: never suspends (trusted)
             live = state.stream is not None and state.stream.backlog is self and state.present is not False
@@ -601,6 +634,11 @@ def Q5(vc):
         cause = e.__cause__
     except asyncio.CancelledError:
         outcome = 'CancelledError'
+    except Exception as e:          # the worker's own exception leaving the watcher un-wrapped (anything else: not ours)
+        if e is not getattr(state, 'worker_exc', None):
+            raise
+        outcome = type(e).__name__
+        cause = e.__cause__
     # ---- on every exit: drained, then closed (C01 shutdown / C20)
     awaited = [e[1] for e in vc.trace if e[0] == 'awaited']
     vc.ensure('drains_and_closes_on_exit', len(created) == 2 and all(t._done for t in created))
@@ -609,6 +647,9 @@ def Q5(vc):
     vc.ensure('drains_and_closes_on_exit', len(awaited) >= 2 and getattr(awaited[0], 'kind', '') == 'depletion'
               and state.closed)
     # ---- Q8
+    # ... as a RuntimeError of its own with the worker's error as the cause: the callers (observation.resource_observer /
+    # namespace_observer) treat certain API errors of the WATCH itself as tolerable ("not enough permissions to watch");
+    # a failed worker must never be mistaken for that, so its error does not leave the watcher un-wrapped
     vc.ensure('worker_failure_escalates', Implies(state.failed_worker, outcome == 'RuntimeError'))
     if outcome == 'RuntimeError':
         vc.ensure('worker_failure_escalates', state.failed_worker and cause is state.worker_exc)
@@ -617,7 +658,7 @@ def Q5(vc):
 
 # ================================================================================================ scheduler
 @harness('S1', targets=['kopf._cogs.aiokits.aiotasks.Scheduler._task_spawner', 'kopf._cogs.aiokits.aiotasks.Scheduler._can_spawn'],
-         props=['C01'],
+         props=['C01', 'C09', 'C12', 'C13', 'C17', 'C19', 'C20'],
          clauses=['limit_respected', 'spawns_while_capacity', 'job_becomes_owned_task', 'fifo', 'blocks_until_it_can_spawn'],
          canaries=['canary.never_spawns'],
          trusted=['asyncio.Condition.wait_for(pred) returns only when pred() holds, holding the lock',
@@ -740,7 +781,7 @@ def S1(vc):
 
 @harness('S2', targets=['kopf._cogs.aiokits.aiotasks.Scheduler._task_done_callback', 'kopf._cogs.aiokits.aiotasks.Scheduler._task_cleaner',
                         'kopf._cogs.aiokits.aiotasks.Scheduler.spawn'],
-         props=['C01', 'C20'],
+         props=['C01', 'C20', 'C03', 'C09', 'C12', 'C13', 'C17', 'C19'],
          clauses=['failure_reaches_handler', 'done_task_leaves_pool', 'cleaner_notifies_spawner', 'closed_rejects', 'spawn_enqueues_and_notifies'],
          canaries=['canary.handler_always_called'],
          trusted=['asyncio.Task.exception() raises CancelledError for cancelled tasks', 'asyncio.Condition', 'asyncio.Queue'])
@@ -844,7 +885,7 @@ def S2(vc):
     return ('spawn', raised is not None)
 
 
-@harness('Q9', targets='kopf._core.reactor.queueing._wait_for_depletion', props=['C01'],
+@harness('Q9', targets='kopf._core.reactor.queueing._wait_for_depletion', props=['C01', 'C09', 'C19', 'C20'],
          clauses=['eos_to_every_stream', 'waits_for_depletion_up_to_exit_timeout'], canaries=['canary.no_eos'],
          trusted=['asyncio.wait_for', 'asyncio.Condition.wait_for', 'asyncio.Queue.put (unbounded: no suspension)'])
 def Q9(vc):
@@ -915,7 +956,7 @@ def _uid_spec_key(pieces):
     return out
 
 
-@harness('Q6u', targets='kopf._core.reactor.queueing.get_uid', props=['C01'],
+@harness('Q6u', targets='kopf._core.reactor.queueing.get_uid', props=['C01', 'C05', 'C06', 'C07', 'C08', 'C09', 'C12', 'C13', 'C14', 'C17', 'C19'],
          clauses=['uid_when_present', 'fallback_total', 'fallback_key_is_the_spec_key', 'lemma_split', 'lemma_spec_key_injective',
                   'lemma_pieces_identify_fields'],
          canaries=['canary.always_same_key', 'canary.lemma_keys_always_equal'],
@@ -943,8 +984,12 @@ def Q6u(vc):
 
     def event(with_uid):
         obj, meta, pieces = {}, {}, []
-        for name, where in NAMES:
-            k = 3 * vc.nondet(2, f'{name}: absent / string') if with_uid else vc.nondet(4, f'{name}: absent / None / empty / string')
+        # how a missing field looks: absent / None / '' for all of them, or rotating through the three (the code treats every
+        # field on its own -- `s or '-'` per element --, so 4 looks x 2^5 presence patterns instead of 4^5 combinations)
+        look = 0 if with_uid else vc.nondet(4, 'missing fields look: absent / None / empty / mixed')
+        for i, (name, where) in enumerate(NAMES):
+            present = vc.nondet(2, f'{name}: missing / string') == 1
+            k = 3 if present else (look if look < 3 else i % 3)
             tgt = obj if where == 'o' else meta
             if k == 0:
                 pieces.append('-')
